@@ -1,7 +1,14 @@
 import argparse, os
+
+
 def parse():
     ap = argparse.ArgumentParser()
     ap.add_argument("--tier", default=os.environ.get("VERIF_TIER", "quick"), choices=["quick", "thorough"])
     ap.add_argument("--replay", default=None)
     ap.add_argument("--only", default=None, help="restrict to corpus procs / ops matching this substring (debug)")
-    return ap.parse_args()
+    a = ap.parse_args()
+    # quick = fixed reproducible core; thorough = exploration driven by VERIF_SEED (see common.eff_seed)
+    if "VERIF_EFF_SEED" not in os.environ:
+        from ..common import seed
+        os.environ["VERIF_EFF_SEED"] = "0" if a.tier == "quick" else str(seed())
+    return a
